@@ -204,9 +204,10 @@ PROPS = {
     },
     "C04": {
         "module": "ShapeVerif.Props.C04Complete",
-        "extra_modules": ["ShapeVerif.Props.C04Sound", "ShapeVerif.Props.C04"],
+        "extra_modules": ["ShapeVerif.Props.C04Sound", "ShapeVerif.Props.C04", "ShapeVerif.Lemmas.RfcSound"],
         "theorems": PENDING_TEXT["C04"],
         "statements": {
+            "parse_sound": "Rfc.parse cs = some d → JsonText cs (specDoc d): the executable recursive-descent reading of RFC 8259 that the run-time oracle uses accepts only texts that are JSON in the sense of the specification accept_iff is stated against, with the same document (payloads erased, member names unescaped)",
             "accept_iff": "∀ src s, fromStr src = ok s ↔ ∃ toks d, JsonTextVia src toks d ∧ depthOk (toks.map kind) ∧ inferDoc d = ok s — JsonTextVia (Ref/JsonText.lean): toks cut src into lexemes each valid per RFC 8259 (six structural characters, three literal names, number per §6 = Rfc.number, string per §7 = Rfc.stringBody, whitespace runs) whose non-whitespace part derives `value` in the RFC's token grammar (Ref/TokenGrammar.lean); depthOk: no prefix has more than 256 brackets open; inferDoc d fails exactly on a member name repeated with conflicting value shapes",
             "json_is_inferred": "JsonTextVia src toks d → depthOk → fromStr src = inferDoc d (as outcomes): every JSON text within the bound is accepted with inferDoc's shape or rejected with inferDoc's error",
             "sources_iff": "(∃ s, fromSources srcs = ok s) ↔ srcs ≠ [] ∧ every source is accepted by fromStr",
